@@ -768,7 +768,7 @@ def forced_result(fn, start, target_local=0):
     return out
 
 
-def variant_chains(fn, start, target_local=0):
+def variant_chains(fn, start, target_local=0, at=None):
     """set of variant chains the return place can hold at the returns reachable from block `start`: ("Ok", "Some"),
     ("None",), ... (outermost first, as deep as the constructors are written in this body); ("?",) for a value that is not
     built by an enum constructor on that path.  Forward propagation over the sub-graph entered at `start`."""
@@ -821,6 +821,9 @@ def variant_chains(fn, start, target_local=0):
                         changed = True
                 if changed:
                     work.append(sx)
+    if at is not None:
+        # what the local can hold on entry to block `at` (empty set: `at` is not reachable from `start`)
+        return set(state[at].get(target_local, UNK)) if at in state else set()
     out = set()
     for rb in fn.return_blocks():
         if rb in state:
